@@ -14,7 +14,7 @@ SPEC_DIR = os.path.join(os.path.dirname(os.path.dirname(os.path.abspath(__file__
 JAVA_CP = "/opt/veriftools/tla/tla2tools.jar:/opt/veriftools/tla/CommunityModules-deps.jar"
 
 DEFAULT_CONSTS = {
-    "MaxCrashes": 0, "MaxWithhold": 0, "MaxSweeps": 0, "MaxCancels": 0, "MaxSignals": 0, "MaxEarly": 0, "MaxPauses": 0, "MaxRestarts": 0, "MaxRegions": 0, "MaxFaults": 0,
+    "MaxCrashes": 0, "MaxWithhold": 0, "MaxSweeps": 0, "MaxCancels": 0, "MaxSignals": 0, "MaxEarly": 0, "MaxPauses": 0, "MaxRestarts": 0, "MaxRegions": 0, "MaxFaults": 0, "MaxAdds": 0,
     "MaxStageWait": 3, "MaxAttempts": 10, "AnyOrder": "TRUE", "EnvBetween": "FALSE", "FixRetry": "FALSE", "TrustNegative": "FALSE", "SplitSweep": "FALSE",
 }
 
